@@ -317,7 +317,15 @@ def targetOK (c : Case) (st? : Option FState) (obs : List Ev) (err : String) (ex
   let orphanM := rxWords.filter fun wd => (producers c wd.w).isEmpty
   let failed := obs.any fun e => match e with | .failure _ => true | .unmet _ => true | _ => false
   let good (n : Nat) : Bool := obs.any fun e => e == .success n || e == .skipUtd n
-  if !outside.isEmpty then (false, s!"executed outside the closure of the selection: {outside}")
+  -- a task reported as failed (TaskFailed / TaskError / DependencyError) although its action does not fail: for the
+  -- placeholder of a selected target this is "Dependent file '<target>' does not exist" -- the target was not built
+  let spurious := obs.filterMap fun e => match e with | .failure n => if c.fails.contains n then none else some n | _ => none
+  let isRxName (n : Nat) : Bool := match lookup0 stTasks.tasks n with | some td => td.isRx | none => false
+  if !spurious.isEmpty then
+    (false, if spurious.any isRxName then
+      s!"the placeholder of a selected target was reported as failed (target not built by its producer): {spurious}"
+    else s!"tasks reported as failed although nothing in them fails: {spurious}")
+  else if !outside.isEmpty then (false, s!"executed outside the closure of the selection: {outside}")
   else if !orphan.isEmpty && !failed && err == "none" then
     (false, s!"a target nobody produces was not reported as an error: {orphan.map (·.w)}")
   else if orphanM.isEmpty && err == "notfound" then (false, "not-found error although every target has a producer")
